@@ -54,6 +54,9 @@ MISSING_CONFIG = [
 ]
 
 
+MISSING_CLASS = {"lib_name and kotlin.domain unset": "kotlin.domain unset"}      # the first missing key is the one reported
+
+
 # ---------------------------------------------------------------------------------------------
 # running the tool and reading its verdict
 
@@ -85,7 +88,7 @@ def norm_msg(m):
     m = m.strip()
     m = re.sub(r"^internal error: entered unreachable code: ", "", m)
     # identifiers that come from the input: generated names, prelude types, Debug names of the special-method kinds
-    m = re.sub(r"\b((m|Fo|Fp|Fq|Ow|It|Er|L|M)\d+|Op|OpL|En|St|Nest|SB|OutSt|Zst|FoSl|FoOut|(Add|Sub|Mul|Div)(Assign)?)\b", "ID", m)
+    m = re.sub(r"\b(\w+_(m\d+|f)|(m|Fo|Fp|Fq|Ow|It|Er|L|M|T)\d+|Op|OpL|En|St|Nest|SB|OutSt|Zst|FoSl|FoOut|(Add|Sub|Mul|Div)(Assign)?)\b", "ID", m)
     m = re.sub(r"\d+", "N", m)
     return m[:60].rstrip()
 
@@ -329,7 +332,9 @@ def same_crash(rn, item_or_src, file, nmsg, prune=False, fresh_run=False):
 
 
 def reduce_item(rn, it, file, nmsg):
-    cur = it
+    cur = U.canon_names(it)
+    if not same_crash(rn, cur, file, nmsg):
+        cur = it                      # (names matter?!) keep the original spelling
     budget = REDUCE_CAP
     progress = True
     while progress and budget > 0:
@@ -342,6 +347,7 @@ def reduce_item(rn, it, file, nmsg):
                 U.build_source([cand])
             except ValueError:
                 continue
+            cand = U.canon_names(cand)
             if same_crash(rn, cand, file, nmsg):
                 cur = cand
                 progress = True
@@ -356,6 +362,11 @@ def run(tier):
     rep = Reporter("C15", tier, "exploration")
     build_tool()
     wd = workdir("C15")
+    rdir = os.path.join(os.path.dirname(os.path.dirname(os.path.abspath(__file__))), "replays", "C15")
+    if os.path.isdir(rdir):                 # witnesses of earlier runs: every violation of this run is written afresh
+        for f in os.listdir(rdir):
+            if f.endswith(".json"):
+                os.remove(os.path.join(rdir, f))
     t0 = time.time()
     deadline = t0 + BUDGET[tier]
     items = U.enumerate_items(tier)
@@ -456,7 +467,7 @@ def run(tier):
                 v2 = rn.run_source(src)
                 if (v2.kind, v2.file, v2.msg) != (v.kind, v.file, v.msg):
                     raise MachineryError("nondeterministic outcome for missing-config probe %s/%s" % (b, label))
-                g = raw_groups.setdefault((b, v.file, norm_msg(v.msg or ""), "config: " + label), {"iids": set(), "labels": set(), "first": None, "cfg": cfg, "label": label})
+                g = raw_groups.setdefault((b, v.file, norm_msg(v.msg or ""), "config: " + MISSING_CLASS.get(label, label)), {"iids": set(), "labels": set(), "first": None, "cfg": cfg, "label": label})
                 g["labels"].add(label)
                 g["iids"].add(pname)
                 if g["first"] is None:
@@ -470,46 +481,52 @@ def run(tier):
     for (b, file, nmsg, rawc), g in raw_groups.items():
         sites.setdefault((b, file, nmsg), []).append((rawc, g))
 
-    def do_site(kv):
-        (b, file, nmsg), groups = kv
-        done = []      # [(coarse part set, class, info)]
-        res = []
+    def rank(x):
+        cr = x[1]["first"]
+        n = len(U.coarse_parts(by_id[cr["iid"]])) if cr.get("iid") is not None and "combo" not in cr else 0
+        return (n, len(x[0]), x[0])
 
-        def rank(x):
-            cr = x[1]["first"]
-            n = len(U.coarse_parts(by_id[cr["iid"]])) if cr.get("iid") is not None and "combo" not in cr else 0
-            return (n, len(x[0]), x[0])
-        for rawc, g in sorted(groups, key=rank):
-            cr = g["first"]
-            plain = cr.get("src") is None and "combo" not in cr
-            if plain:
-                parts = set(U.coarse_parts(by_id[cr["iid"]]))
-                hit = [d for d in done if d[0] and d[0] <= parts]
-                if hit:
-                    res.append(((b, file, nmsg, hit[0][1]), {"inherit": True, "raw": rawc, "g": g}))
-                    continue
-            rn = Runner(b, g["cfg"], os.path.join(wd, "red_%s_%s" % (b, sha("|".join((file, nmsg, rawc))))))
-            red = None
-            if cr.get("src") is not None:          # missing-config probe: the program is irrelevant, keep the smallest
-                src, cl = cr["src"], rawc
-            elif "combo" in cr:
-                src, cl = U.build_source([by_id[i] for i in cr["combo"]], prune=True), rawc
-            else:
-                red = reduce_item(rn, by_id[cr["iid"]], file, nmsg)
-                cl = U.item_class(red)
-                src = U.build_source([red], prune=True)
-            v = same_crash(rn, src, file, nmsg)
-            v2 = same_crash(rn, src, file, nmsg, fresh_run=True) if v is not None else None
-            rn.close()
-            if v is None or v2 is None:
-                raise MachineryError("crash of %s on %s did not reproduce identically on re-run (%s | %s)" % (rawc, b, file, nmsg))
-            if red is not None:
-                done.append((set(U.coarse_parts(red)), cl, None))
-            res.append(((b, file, nmsg, cl), {"program": src, "cmd": v.cmd, "stderr": v.stderr[-1500:], "line": v.line, "msg": v.msg, "raw": rawc, "g": g}))
-        return res
+    done = dict((k, []) for k in sites)      # site -> [(coarse part set, class)] of reduced witnesses
+    frozen = {}                                # what the second pass may inherit from: the first pass' witnesses only (deterministic)
+
+    def do_group(job):
+        (b, file, nmsg), rawc, g = job
+        cr = g["first"]
+        plain = cr.get("src") is None and "combo" not in cr
+        if plain:
+            parts = set(U.coarse_parts(by_id[cr["iid"]]))
+            hit = [d for d in frozen.get((b, file, nmsg), []) if d[0] and d[0] <= parts]
+            if hit:
+                return ((b, file, nmsg, hit[0][1]), {"inherit": True, "raw": rawc, "g": g})
+        rn = Runner(b, g["cfg"], os.path.join(wd, "red_%s_%s" % (b, sha("|".join((file, nmsg, rawc))))))
+        red = None
+        if cr.get("src") is not None:          # missing-config probe: the program is irrelevant, keep the smallest
+            src, cl = cr["src"], rawc
+        elif "combo" in cr:
+            src, cl = U.build_source([by_id[i] for i in cr["combo"]], prune=True), rawc
+        else:
+            red = reduce_item(rn, by_id[cr["iid"]], file, nmsg)
+            cl = U.item_class(red)
+            src = U.build_source([red], prune=True)
+        v = same_crash(rn, src, file, nmsg)
+        v2 = same_crash(rn, src, file, nmsg, fresh_run=True) if v is not None else None
+        rn.close()
+        if v is None or v2 is None:
+            raise MachineryError("crash of %s on %s did not reproduce identically on re-run (%s | %s)" % (rawc, b, file, nmsg))
+        if red is not None:
+            done[(b, file, nmsg)].append((set(U.coarse_parts(red)), cl))
+        return ((b, file, nmsg, cl), {"program": src, "cmd": v.cmd, "stderr": v.stderr[-1500:], "line": v.line, "msg": v.msg, "raw": rawc, "g": g})
+
+    def do_site_head(kv):
+        site, groups = kv
+        return [do_group((site, rawc, g)) for rawc, g in sorted(groups, key=rank)[:4]]
 
     stage2 = (_runs[0], round(time.time() - t0, 1))
-    reduced = [x for r in pmap(do_site, sorted(sites.items(), key=lambda kv: -len(kv[1]))) for x in r]
+    # the four smallest groups of every site first (their witnesses label most of the other groups), then all the rest
+    reduced = [x for r in pmap(do_site_head, sorted(sites.items())) for x in r]
+    frozen.update(dict((k, sorted(v, key=lambda d: (len(d[0]), d[1]))) for k, v in done.items()))
+    rest = [(site, rawc, g) for site, groups in sorted(sites.items()) for rawc, g in sorted(groups, key=rank)[4:]]
+    reduced += pmap(do_group, rest)
     print("C15: enumeration %s; missing-config probes done at %s; reduction of %d crash groups at %d sites done at %s" % (
         stage1, stage2, len(raw_groups), len(sites), (_runs[0], round(time.time() - t0, 1))))
     final = {}
